@@ -521,6 +521,7 @@ func genPPTX(r *hx.Rng) *pkg {
 		p.Oracle = false
 		p.Notes = append(p.Notes, "nothing-declared")
 	}
+	p.applyFlavour(r.Fork(0xf1a7)) // namespace flavour of the markup (flavour.go), own stream
 	p.admissionVariant(r.Fork(0xad31))
 	p.finishZip(r, "")
 	return p
